@@ -21,6 +21,14 @@ The translator is a symbolic executor of straight-line code:
     `logging.*(...)` statements are skipped;
   * storage dtypes are not modelled: `.long() .float() .int() .double() .type(..) .to(..) .clone() .detach()`
     are identities, `dtype= / device= / requires_grad=` keywords are ignored;
+  * conditions have a normal form (`norm_cond`, `Exec.ite`): `isinstance(x, (A, B))` is `isinstance(x, A) or isinstance(x, B)`,
+    nested `and` / `or` are flattened, an all-negated `and` / `or` is the negation of the dual, and `if <negated c>: A else: B`
+    is `if c: B else: A` — so `if k is not None: X` + fall-through and the guard clause `if k is None: return …` + `X`
+    give one term, as do `else: raise` and `if not (…) or …: raise` in front of the rest;
+  * a private helper may also be called in expression position with a Boolean result (`-> bool`: `if c: return True` /
+    `return d` is `c or d`) or at statement level (a validation fragment that raises or returns None: its statements run
+    in place, then the caller's remaining statements); method and function spelling of one torch operation coincide
+    (`x.reciprocal()` / `torch.reciprocal(x)`, `torch.abs(x)` / `x.abs()`, `a.eq(b)` / `torch.eq(a, b)` / `a == b`);
   * values that never reach the result (arguments of log messages) may be opaque.
 Anything outside the grammar makes the kernel `untranslated "<name>" "<reason>"` — never a guess."""
 from __future__ import annotations
@@ -116,6 +124,13 @@ TORCH_ARITH = {"add": "add", "sub": "sub", "subtract": "sub", "mul": "mul", "mul
                "true_divide": "div"}
 
 
+# one torch operation, two spellings: functions `torch.f(x, …)` that `Exec.torch_call` knows and that exist as the method
+# `x.f(…)`, and methods `x.m(…)` that `Exec.method` knows and that exist as the function `torch.m(x, …)`
+FUNCTION_FORM = {"reciprocal", "square", "pow", "log10", "isnan", "nan_to_num", "argmax", "logical_and", "logical_or", "inner", "all"}
+METHOD_FORM = {"squeeze", "unsqueeze", "sign", "abs", "clamp", "diff", "cumsum", "flip", "any", "repeat_interleave",
+               "masked_scatter_", "clone", "detach"}
+
+
 class Unsupported(Exception):
     pass
 
@@ -165,6 +180,76 @@ def returns_tuple(t) -> bool:
     return False
 
 
+BOOL_HEADS = {"bool", "pyEq", "pyCmp", "pyNot", "isStr", "isInt", "isFloat", "isTensor", "isNone", "sameSize"}
+DUAL = {"pyAnd": "pyOr", "pyOr": "pyAnd"}
+
+
+def is_bool(t) -> bool:
+    """does the term evaluate to a Python `bool` (or fail)?  (`eval`: these constructors answer `.bool _`)"""
+    return t[0] in BOOL_HEADS or (t[0] in DUAL and is_bool(t[1]) and is_bool(t[2]))
+
+
+def chain(op, t):
+    """operands of a (nested) `and` / `or`: short-circuit evaluation is associative"""
+    return chain(op, t[1]) + chain(op, t[2]) if t[0] == op else [t]
+
+
+def mk_chain(op, items):
+    t = items[-1]
+    for x in reversed(items[:-1]):
+        t = (op, x, t)
+    return t
+
+
+TYPE_TESTS = ("isFloat", "isInt", "isNone", "isStr", "isTensor")
+
+
+def sort_type_tests(items):
+    """adjacent type tests of ONE value inside an `and` / `or` (total, never failing) in a fixed order:
+    `isinstance(w, (int, float))` = `isinstance(w, (float, int))`"""
+    out, i = [], 0
+    while i < len(items):
+        j = i
+        while j < len(items) and items[j][0] in TYPE_TESTS and items[j][1] == items[i][1]:
+            j += 1
+        if j > i + 1:
+            out += sorted(items[i:j], key=lambda x: TYPE_TESTS.index(x[0]))
+            i = j
+        else:
+            out.append(items[i])
+            i += 1
+    return out
+
+
+def norm_cond(t):
+    """normal form of a condition: nested `and` / `or` flattened (right-nested), `not not c` = `c`, and a conjunction /
+    disjunction whose operands are ALL negated is the negation of the dual (`not a or not b` = `not (a and b)`), so
+    that a condition and its negation differ by one leading `pyNot` (the `if` then swaps its branches)."""
+    if t[0] == "pyNot":
+        x = norm_cond(t[1])
+        return x[1] if x[0] == "pyNot" else ("pyNot", x)
+    if t[0] in DUAL:
+        flat = []
+        for x in chain(t[0], t):
+            flat += chain(t[0], norm_cond(x))
+        flat = sort_type_tests(flat)
+        if all(x[0] == "pyNot" for x in flat):
+            inner = []
+            for x in flat:
+                inner += chain(DUAL[t[0]], x[1])
+            return ("pyNot", mk_chain(DUAL[t[0]], inner))
+        return mk_chain(t[0], flat)
+    return t
+
+
+def isinstance_alternatives(test):
+    """`isinstance(x, (A, B))` = `isinstance(x, A) or isinstance(x, B)`: the list of one-type tests, or None"""
+    if isinstance(test, ast.Call) and isinstance(test.func, ast.Name) and test.func.id == "isinstance" and len(test.args) == 2 \
+            and not test.keywords and isinstance(test.args[1], ast.Tuple) and test.args[1].elts:
+        return [ast.Call(func=test.func, args=[test.args[0], ty], keywords=[]) for ty in test.args[1].elts]
+    return None
+
+
 def const_of(sv):
     """python constant of a literal term, else raises"""
     t = sv.term
@@ -206,17 +291,32 @@ def dotted(e):
     return None
 
 
+class _Resume(ast.stmt):
+    """synthetic last statement of a private helper inlined at STATEMENT level (`_require_weight(input, weight)`, a
+    validation fragment that returns None): go on with the caller's remaining statements in the caller's environment"""
+    _fields = ()
+
+    def __init__(self, rest, env, depth, outer, ret_kinds):
+        super().__init__()
+        self.rest, self.env, self.depth, self.outer, self.ret_kinds = rest, env, depth, outer, ret_kinds
+
+
 class Exec:
     def __init__(self, mod: Module, kernel_names, partial=False):
         self.mod = mod
         self.kernel_names = kernel_names          # private helpers of this module that may be inlined
         self.depth = 0
         self.partial = partial
+        self.ret_kinds = set()                    # kinds of the values returned by the function being executed
+        self.resume = None                        # innermost statement-level inlining in progress (a `_Resume`)
 
     # ------------------------------------------------------------------ refinement of dynamically typed parameters
     def refine(self, test, env, truth):
         """environment in which `test` is known to be `truth`: `isinstance(w, torch.Tensor)`, `isinstance(w, float)`,
         `w is None`, `w is not None`, conjunctions (when true) and disjunctions (when false) of these"""
+        alts = isinstance_alternatives(test)
+        if alts is not None:
+            test = alts[0] if len(alts) == 1 else ast.BoolOp(op=ast.Or(), values=alts)
         if isinstance(test, ast.BoolOp):
             if (isinstance(test.op, ast.And) and truth) or (isinstance(test.op, ast.Or) and not truth):
                 for v in test.values:
@@ -255,6 +355,16 @@ class Exec:
         if not stmts:
             raise Unsupported("a path ends without `return`")
         s, rest = stmts[0], stmts[1:]
+        if isinstance(s, _Resume) or (isinstance(s, ast.Return) and self.resume is not None and self.resume.depth == self.depth - 1
+                                      and (s.value is None or (isinstance(s.value, ast.Constant) and s.value.value is None))):
+            # the end (or a bare `return`) of a helper inlined at statement level: back to the caller
+            r = s if isinstance(s, _Resume) else self.resume
+            saved = (self.resume, self.depth, self.ret_kinds)
+            self.resume, self.depth, self.ret_kinds = r.outer, r.depth, r.ret_kinds
+            try:
+                return self.block(r.rest, r.env)
+            finally:
+                self.resume, self.depth, self.ret_kinds = saved
         if isinstance(s, ast.Expr):
             if isinstance(s.value, ast.Constant):
                 return self.block(rest, env)                      # docstring
@@ -269,10 +379,15 @@ class Exec:
                     env = dict(env)
                     env[f.value.id] = self.ev(s.value, env)
                     return self.block(rest, env)
+                if isinstance(f, ast.Name) and f.id in self.mod.funcs and f.id not in env:
+                    # a private helper called for its effect (it raises or returns None): its statements run here
+                    return self.inline(f.id, s.value, env, rest=rest)
             raise Unsupported("expression statement " + ast.unparse(s)[:60])
         if isinstance(s, ast.Return):
             if s.value is None:
                 raise Unsupported("bare return")
+            if self.resume is not None and self.resume.depth == self.depth - 1:
+                raise Unsupported("a helper called as a statement returns a value")
             return self.result_term(self.ev(s.value, env))
         if isinstance(s, ast.Raise):
             exc = s.exc.func if isinstance(s.exc, ast.Call) else s.exc
@@ -327,13 +442,27 @@ class Exec:
             if a == b:
                 return a
             if c.kind == "P":
-                return ("ite", c.term, a, b)
+                return self.ite(norm_cond(c.term), a, b)
             if c.is_tensor():
                 return ("iteT", c.term, a, b)
             raise Unsupported("branch on " + (c.term[1] if c.kind == "O" else c.kind) + " with different outcomes")
         if isinstance(s, ast.Pass):
             return self.block(rest, env)
         raise Unsupported("statement " + type(s).__name__)
+
+    @staticmethod
+    def ite(c, a, b):
+        """`if c: a else: b` on a normalised condition: a negated condition swaps the branches; a Boolean-valued `if`
+        whose one branch is a literal is the `or` / `and` it spells (`if c: return True` / `return d` = `c or d`)"""
+        if c[0] == "pyNot":
+            c, a, b = c[1], b, a
+        if is_bool(c) and is_bool(a) and is_bool(b) and (a[0] == "bool" or b[0] == "bool"):
+            if a[0] == "bool":
+                t = ("pyOr", c, b) if a[1] else ("pyAnd", ("pyNot", c), b)
+            else:
+                t = ("pyOr", ("pyNot", c), a) if b[1] else ("pyAnd", c, a)
+            return norm_cond(t)
+        return ("ite", c, a, b)
 
     def bind(self, target, v, env):
         if isinstance(target, ast.Name):
@@ -365,6 +494,11 @@ class Exec:
                 t = ("pair", x, t)
             return t
         if v.kind in ("T", "B", "R", "U"):
+            self.ret_kinds.add("T")
+            return v.term
+        if v.kind == "P" and self.depth > 0:
+            # a private helper that returns a configuration value (`-> bool`): usable where the call stands
+            self.ret_kinds.add("P")
             return v.term
         raise Unsupported("returns a value of kind " + v.kind + (" (" + str(v.term[1]) + ")" if v.kind == "O" else ""))
 
@@ -395,10 +529,10 @@ class Exec:
                 env_i = self.refine(v, env_i, isinstance(e.op, ast.And))
             if all(v.kind == "P" for v in vals):
                 op = "pyAnd" if isinstance(e.op, ast.And) else "pyOr"
-                t = vals[-1].term
-                for v in reversed(vals[:-1]):
-                    t = (op, v.term, t)
-                return SV(t, "P")
+                items = []
+                for v in vals:
+                    items += chain(op, v.term)            # `(a or b) or c` = `a or (b or c)`
+                return SV(mk_chain(op, items), "P")
             return opaque("`and`/`or` mixing configuration and tensor values")
         if isinstance(e, ast.UnaryOp):
             v = self.ev(e.operand, env)
@@ -424,13 +558,19 @@ class Exec:
         if isinstance(e, ast.JoinedStr):
             return opaque("f-string")
         if isinstance(e, ast.IfExp):
+            if isinstance(e.test, ast.UnaryOp) and isinstance(e.test.op, ast.Not):
+                return self.ev(ast.IfExp(test=e.test.operand, body=e.orelse, orelse=e.body), env)
             c = self.ev(e.test, env)
             a, b = self.ev(e.body, self.refine(e.test, env, True)), self.ev(e.orelse, self.refine(e.test, env, False))
+            if c.kind == "O":
+                # a choice on a value that is not modelled (`torch.float64 if input.dtype == torch.float64 else None`)
+                return a if a.term == b.term and a.kind == b.kind else opaque("conditional expression on " + str(c.term[1]))
             if c.kind != "P" or not all(v.kind in ("T", "B", "P") for v in (a, b)):
                 raise Unsupported("conditional expression on other than a configuration value")
             if a.term == b.term:
                 return a
-            return SV(("ite", c.term, a.term, b.term), "T" if "T" in (a.kind, b.kind) else a.kind)
+            t = self.ite(norm_cond(c.term), a.term, b.term)
+            return SV(t, "T" if "T" in (a.kind, b.kind) else a.kind)
         if isinstance(e, ast.List):
             return SV(("list",), "tuple", [self.ev(x, env) for x in e.elts])
         raise Unsupported("expression " + type(e).__name__)
@@ -624,6 +764,9 @@ class Exec:
     def call(self, e, env):
         f = e.func
         if isinstance(f, ast.Name):
+            alts = isinstance_alternatives(e)
+            if alts is not None:
+                return self.ev(alts[0] if len(alts) == 1 else ast.BoolOp(op=ast.Or(), values=alts), env)
             if f.id == "isinstance" and len(e.args) == 2 and not e.keywords:
                 x = self.ev(e.args[0], env)
                 ty = dotted(e.args[1])
@@ -662,7 +805,7 @@ class Exec:
             return self.method(recv, f.attr, e, env)
         raise Unsupported("call target")
 
-    def inline(self, name, e, env):
+    def inline(self, name, e, env, rest=None):
         if not name.startswith("_") or name.endswith("_input_check") or name.endswith("_param_check"):
             raise Unsupported("call of " + name + " (not a private helper of this module)")
         if self.depth >= 3:
@@ -687,11 +830,29 @@ class Exec:
                 raise Unsupported("missing argument " + p + " of " + name)
             if bound[p].kind not in ("T", "B", "P", "D"):
                 raise Unsupported("argument of kind " + bound[p].kind + " passed to " + name)
+        if rest is not None:
+            # statement level: the term of the whole continuation (helper body, then the caller's remaining statements)
+            if any((dotted(d) or "") == "torch.jit.script" for d in fn.decorator_list):
+                raise Unsupported("scripted helper called as a statement")
+            saved = (self.resume, self.depth, self.ret_kinds)
+            self.resume = _Resume(rest, env, self.depth, self.resume, self.ret_kinds)
+            self.depth, self.ret_kinds = self.depth + 1, set()
+            try:
+                return self.block(list(fn.body) + [self.resume], bound)
+            finally:
+                self.resume, self.depth, self.ret_kinds = saved
         self.depth += 1
+        outer, self.ret_kinds = self.ret_kinds, set()
+        outer_resume, self.resume = self.resume, None
         try:
             t = maybe_scripted(fn, self.block(list(fn.body), bound))
+            kinds = self.ret_kinds
         finally:
             self.depth -= 1
+            self.ret_kinds = outer
+            self.resume = outer_resume
+        if kinds == {"P"} and not returns_tuple(t):
+            return SV(t, "P")
         return SV(t, "R" if returns_tuple(t) else "T")
 
     def torch_call(self, d, e, env):
@@ -869,6 +1030,11 @@ class Exec:
             return opaque("torch.nonzero")
         if name == "topk":
             raise Unsupported("torch.topk (tie order unspecified)")
+        if name in METHOD_FORM and e.args and not any(isinstance(a, ast.Starred) for a in e.args):
+            # function spelling of a tensor method: `torch.abs(x)` = `x.abs()`, `torch.unsqueeze(x, -1)` = `x.unsqueeze(-1)`
+            recv = self.ev(e.args[0], env)
+            if recv.is_tensor():
+                return self.method(recv, name, ast.Call(func=e.func, args=list(e.args[1:]), keywords=e.keywords), env)
         raise Unsupported("torch." + name)
 
     def method(self, recv, m, e, env):
@@ -1003,6 +1169,9 @@ class Exec:
             return opaque("." + m + "()")
         if m == "size" and not e.args and not e.keywords:
             return SV(("sizeof", t), "pseudo")
+        if m in FUNCTION_FORM or m in TORCH_CMP or m in TORCH_ARITH:
+            # method spelling of a torch function: `x.reciprocal()` = `torch.reciprocal(x)`, `a.eq(b)` = `torch.eq(a, b)`
+            return self.torch_call("torch." + m, ast.Call(func=e.func, args=[e.func.value] + list(e.args), keywords=e.keywords), env)
         raise Unsupported("tensor method ." + m)
 
 
@@ -1052,7 +1221,7 @@ def lean_term(t, ind=2) -> str:
     return head + pad + pad.join(parts)
 
 
-SYMMETRIC = {("cmp", "eq"), ("cmp", "ne"), ("arith", "add"), ("arith", "mul"), ("land",), ("lor",), ("band",)}
+SYMMETRIC = {("cmp", "eq"), ("cmp", "ne"), ("arith", "add"), ("arith", "mul"), ("land",), ("lor",), ("band",), ("sameSize",)}
 CANON_ARITH = True
 
 
